@@ -85,7 +85,9 @@ def timekeeper_mirror(prog: Program, rep: Report) -> None:
     nf_, nr_ = itf.objenv.get("time.step"), itr.objenv.get("time.step")
     rep.check(rule, fi.qual, "update: step count independent of the direction", isinstance(nf_, NF) and isinstance(nr_, NF) and nf_ == nr_, what_bad=f"{vtext(nf_)} vs {vtext(nr_)}", what_ok="n + 1", loc=fi.loc())
     # direction sanity: time_reversal != (duration < 0)
-    init = prog.role_func("time", "__init__")
+    from ..program import reading_view
+
+    init = reading_view(prog, prog.role_func("time", "__init__"))
     guards = [n_ for n_ in walk_no_nested(init.node) if isinstance(n_, ast.If) and "time_reversal" in unparse(n_.test) and "duration" in unparse(n_.test)]
     ok = False
     for g in guards:
@@ -121,7 +123,7 @@ def norm_cmp(c: ast.Compare) -> tuple[str, str, str]:
 
 def release_mirror(prog: Program, rep: Report) -> None:
     rule = "R10.2"
-    fi = prog.role_func("release", "__init__")
+    fi = __import__("sa.program", fromlist=["release_init_view"]).release_init_view(prog)
     conds = [n_ for n_ in walk_no_nested(fi.node) if isinstance(n_, ast.If) and "time_reversal" in unparse(n_.test)]
     inside = set()
     for c in conds:
@@ -180,7 +182,8 @@ def release_mirror(prog: Program, rep: Report) -> None:
         return {x.id for x in ast.walk(expand_locals(e, dz.node)) if isinstance(x, ast.Name)}
 
     tgt_name = tgt if ok else None
-    ok = len(ar) == 1 and len(ar[0].args) == 3 and unparse(ar[0].args[0]) == "file_times[0]" and unparse(ar[0].args[1]) == "self.stop_time" and tgt_name is not None and tgt_name in names_in(ar[0].args[2])
+    first_txt = unparse(expand_locals(ar[0].args[0], dz.node)) if len(ar) == 1 and ar[0].args else ""
+    ok = len(ar) == 1 and len(ar[0].args) == 3 and first_txt.endswith(".index.unique()[0]") and unparse(ar[0].args[1]) == "self.stop_time" and tgt_name is not None and tgt_name in names_in(ar[0].args[2])
     rep.check(rule, dz.qual, "ticks = arange(first file time, stop, signed frequency)", ok, what_bad=f"got {[short(a) for a in ar]}", what_ok="direction-symmetric", loc=dz.loc())
 
 
